@@ -29,6 +29,8 @@ def run(tier, work):
                               env={"VERIF_OUT": out, "VERIF_IN": simdir, "VERIF_N": 300 if thorough else 60,
                                    "VERIF_MAXLOG": 24 if thorough else 20, "VERIF_SEED": vlib.seed()})
     if rc != 0:
+        if vlib.code_panic(o):
+            raise vlib.CodePanic(vlib.code_panic(o), o)
         raise vlib.MachineryError("sketch harness failed rc=%s:\n%s" % (rc, (o or "")[-3000:]))
     traces = 0; div = 0; resets = 0; lines = 0; samples = []
     for tag in ("replay", "driver"):
